@@ -1096,6 +1096,13 @@ func scanOutParamW(c *core.Ctx) []ob {
 			if !(polyish(p.Type()) || isMetaCarrier(p.Type()) || strings.Contains(p.Type().String(), "ringqp.Poly") || strings.Contains(p.Type().String(), "ring.Poly")) {
 				continue
 			}
+			// an unexported function that computes a value (a level, a size) from the operands, the receiver-to-be
+			// among them, is a query, not an operation with an output
+			if !d.fd.Name.IsExported() && sig.Results().Len() > 0 {
+				if b, ok := sig.Results().At(0).Type().Underlying().(*types.Basic); ok && b.Info()&(types.IsNumeric|types.IsBoolean) != 0 {
+					continue
+				}
+			}
 			n++
 			key := fmt.Sprintf("OUTPARAMW:%s#%s", fkey, p.Name())
 			if e.sums[f].wParams[i] {
